@@ -6,7 +6,7 @@ from ..refs import vtimezone as R5
 
 ID = "C12"
 RULE = ("(1) VTIMEZONE definitions (G7): 1-4 observances, whole-minute offsets -12h..+14h, kinds {yearly nth-weekday rule pair, rule+UNTIL (UTC), rule+COUNT, RDATE "
-        "lists, single onsets - also onsets that keep the offset and change only TZNAME or STANDARD/DAYLIGHT}, with/without TZNAME (also the same TZNAME on observances with different offsets), observance order shuffled; built with "
+        "lists, single onsets - also onsets hours apart whose local DTSTART order differs from their order in time, and onsets that keep the offset and change only TZNAME or STANDARD/DAYLIGHT}, with/without TZNAME (also the same TZNAME on observances with different offsets), observance order shuffled; built with "
         "Timezone.from_ical(text).to_tz(tzp, lookup_tzid=False) under both providers; instants: every onset -1 s / 0 / +1 s / +20 d (a sample of onsets per "
         "definition in quick) and two instants in 2037; p.astimezone(tz) must give R5's TZOFFSETTO, TZNAME when given, dst()==0 under STANDARD, and the two "
         "providers must agree. (2) histories of 1-5 parsed calendars in one process (zone cache cleared at the start of each history): each calendar "
@@ -28,7 +28,7 @@ def clamp(off):
 
 
 def gen_definition(rng):
-    kind = rng.choice(("rule-pair", "rule-pair", "rule-until", "rule-count", "rdates", "singles", "single", "independent"))
+    kind = rng.choice(("rule-pair", "rule-pair", "rule-until", "rule-count", "rdates", "singles", "single", "independent", "close"))
     std = rng.choice(range(-12 * 60, 14 * 60 + 1, 15)) * 60
     delta = rng.choice((1800, 3600, 3600, 7200))
     dst = clamp(std + delta)
@@ -93,6 +93,23 @@ def gen_definition(rng):
             to = clamp(frm + rng.choice((-3600, 1800, 3600, 7200)))
             k = rng.choice(("STANDARD", "DAYLIGHT"))
             obs.append((k, (y, rng.randrange(1, 13), rng.randrange(1, 29), rng.randrange(0, 24), 0, 0), frm, to, (names[1] if k == "DAYLIGHT" else names[0]), (), None))
+    elif kind == "close":
+        # single onsets a few hours apart (as instants): their order as *local* DTSTART values can differ from their order in time,
+        # because each DTSTART is local to its own TZOFFSETFROM
+        t = datetime(rng.randrange(1971, 2030), rng.randrange(1, 13), rng.randrange(1, 29), rng.randrange(0, 24))
+        cur = rng.choice(range(-8 * 60, 10 * 60 + 1, 30)) * 60
+        for i in range(rng.randrange(2, 5)):
+            chained = rng.randrange(3) > 0
+            frm = cur if chained else clamp(cur + rng.choice(range(-240, 241, 30)) * 60)
+            to = clamp(frm + rng.choice((-4 * 3600, -3 * 3600, -3600, 1800, 3600, 2 * 3600, 4 * 3600)))
+            if to == frm:
+                to = frm - 3600
+            local = t + timedelta(seconds=frm)
+            k = rng.choice(("STANDARD", "DAYLIGHT"))
+            nm = None if name_mode == "none" else f"C{i}{k[0]}"
+            obs.append((k, (local.year, local.month, local.day, local.hour, local.minute, 0), frm, to, nm, (), None))
+            cur = to
+            t += timedelta(hours=rng.choice((1, 2, 3, 5, 9, 26, 24 * 40)))
     else:
         obs.append(("STANDARD", (rng.randrange(1970, 2000), 1, 1, 0, 0, 0), std, std, names[0], (), None))
     rng.shuffle(obs)
